@@ -156,7 +156,14 @@ pub fn test_error_json(e: &TestError) -> Value {
         TestErrorKind::ParseError(p) => parse_kind_code(p),
         _ => 0,
     };
-    json!(["err", test_kind_code(&k), sub, loc_json(&e.location())])
+    let detail = match &k {
+        TestErrorKind::Fail { err, .. } => err.to_string(),
+        TestErrorKind::ErrorMismatch { err, .. } => err.to_string(),
+        TestErrorKind::StatementResultMismatch { actual, .. } => actual.clone(),
+        TestErrorKind::QueryResultMismatch { actual, .. } => actual.clone(),
+        _ => String::new(),
+    };
+    json!(["err", test_kind_code(&k), sub, loc_json(&e.location()), detail])
 }
 
 pub fn output_json<T: ColumnType>(o: &RecordOutput<T>) -> Value {
